@@ -210,7 +210,12 @@ class ModelFittingDataTree(ProblemSingleObjective):
                     weights_from_file=weights_from_file,
                 )
 
-            self.all_target_data = targets.isel(indexers=target_fit_range.to_dict())
+            # Note: dimension 'time' of the fit range is 'readout_time' in the target(s)
+            target_indexers: dict[str, slice] = {
+                ("readout_time" if key == "time" else key): value
+                for key, value in target_fit_range.to_dict().items()
+            }
+            self.all_target_data = targets.isel(indexers=target_indexers)
             self.target_full_scale = targets
 
     def get_bounds(self) -> tuple[Sequence[float], Sequence[float]]:
